@@ -6,11 +6,13 @@ import (
 	"bufio"
 	"encoding/hex"
 	"encoding/json"
+	"fmt"
 	"io"
 	"log"
 	"net"
 	"net/http"
 	"os"
+	"sync"
 	"time"
 
 	"github.com/fabiolb/fabio/config"
@@ -83,6 +85,60 @@ type verifC02Session struct {
 	waiting bool
 }
 
+var (
+	verifC02Mu       sync.Mutex
+	verifC02Seq      int
+	verifC02Sessions = map[string]*verifC02Session{}
+	verifC02Addr     string
+)
+
+// verifC02Listen starts (once per process) the scripted endpoint of the custom backend. Every session polls its
+// own path; a poll of a session that has been replaced is never answered.
+func verifC02Listen() string {
+	verifC02Mu.Lock()
+	defer verifC02Mu.Unlock()
+	if verifC02Addr != "" {
+		return verifC02Addr
+	}
+	var ln net.Listener
+	var err error
+	for i := 0; i < 50; i++ {
+		if ln, err = net.Listen("tcp", "127.0.0.1:0"); err == nil {
+			break
+		}
+		time.Sleep(200 * time.Millisecond)
+	}
+	if err != nil {
+		log.SetOutput(os.Stderr)
+		log.Fatal("verif c02: listen: ", err)
+	}
+	verifC02Addr = ln.Addr().String()
+	go http.Serve(ln, http.HandlerFunc(func(w http.ResponseWriter, r *http.Request) {
+		verifC02Mu.Lock()
+		s := verifC02Sessions[r.URL.Path]
+		verifC02Mu.Unlock()
+		if s == nil {
+			select {}
+		}
+		s.arrived <- struct{}{}
+		p, ok := <-s.resp
+		if !ok {
+			select {}
+		}
+		if p.drop {
+			if hj, ok := w.(http.Hijacker); ok {
+				if c, _, err := hj.Hijack(); err == nil {
+					c.Close()
+					return
+				}
+			}
+		}
+		w.WriteHeader(p.status)
+		io.WriteString(w, p.body)
+	}))
+	return verifC02Addr
+}
+
 func verifC02Start(mode string) *verifC02Session {
 	s := &verifC02Session{}
 	route.SetTable(make(route.Table))
@@ -99,27 +155,13 @@ func verifC02Start(mode string) *verifC02Session {
 	case "custombackend":
 		s.arrived = make(chan struct{}, 1)
 		s.resp = make(chan verifC02Poll)
-		ln, err := net.Listen("tcp", "127.0.0.1:0")
-		if err != nil {
-			log.SetOutput(os.Stderr)
-			log.Fatal("verif c02: listen: ", err)
-		}
-		go http.Serve(ln, http.HandlerFunc(func(w http.ResponseWriter, r *http.Request) {
-			s.arrived <- struct{}{}
-			p := <-s.resp
-			if p.drop {
-				if hj, ok := w.(http.Hijacker); ok {
-					if c, _, err := hj.Hijack(); err == nil {
-						c.Close()
-						return
-					}
-				}
-			}
-			w.WriteHeader(p.status)
-			io.WriteString(w, p.body)
-		}))
+		verifC02Mu.Lock()
+		verifC02Seq++
+		path := fmt.Sprintf("routes/%d", verifC02Seq)
+		verifC02Sessions["/"+path] = s
+		verifC02Mu.Unlock()
 		cfg.Registry.Backend = "custom"
-		cfg.Registry.Custom = config.Custom{Host: ln.Addr().String(), Scheme: "http", Path: "routes", Timeout: time.Hour}
+		cfg.Registry.Custom = config.Custom{Host: verifC02Listen(), Scheme: "http", Path: path, Timeout: time.Hour}
 		be, _ := custom.NewBackend(&cfg.Registry.Custom)
 		registry.Default = be
 	}
@@ -156,6 +198,16 @@ func init() {
 			} else {
 				switch c.Op {
 				case "reset":
+					if s.resp != nil {
+						verifC02Mu.Lock()
+						for k, v := range verifC02Sessions {
+							if v == s {
+								delete(verifC02Sessions, k)
+							}
+						}
+						verifC02Mu.Unlock()
+						close(s.resp) // the replaced session's pending poll is never answered
+					}
 					s = verifC02Start(mode)
 					reply(dump())
 				case "svc", "man":
